@@ -120,6 +120,9 @@ package uu
 //@   mode bv
 //@   ensures [C19.bits] int(digitOf(result, 12)) == 4
 //@   ensures [C19.bits] digitOf(result, 16)&8 != 0 && digitOf(result, 16)&4 == 0
+// each of the remaining 122 bits takes both values (for some pair of draws)
+//@   varies [C19.spread] result.Higher mask 0xffffffffffff0fff
+//@   varies [C19.spread] result.Lower mask 0x3fffffffffffffff
 
 // ---- lemmas (harness functions below, verified against the contracts above only) ----------------------------
 //@ func lemmaC05RoundTrip
